@@ -121,3 +121,55 @@ CHECKS["C11"] = {
     "assumptions": COMMON_ASSUME,
     "deadline": {"quick": 300, "thorough": 1800},
 }
+
+
+CHECKS["C20"] = {
+    "builds": [{"name": "p2p_driver", "sources": ["drivers/p2p_driver.cpp"], "flags": ["-O1", "-g"]}],
+    "runs": [{"driver": "p2p_driver", "args": ["--mode", "C20"], "slices": 32}],
+    "level": "exploration",
+    "replayable": False,
+    "rule": "every (source count, target count) of the count lattice x separation scale x 3 deterministic layout families (line, cubic "
+            "lattice, tight cluster far from the origin; charges of both signs) x float/double, through GenericFullRemote, FullMutual, "
+            "GenericInner and their *Scalar entry points, with pre-filled result arrays; oracle: long double evaluation of sum q_j/r and "
+            "q_i q_j (x_j-x_i)/r^3, tolerance 16(n+4)eps of the sum of absolute contributions; mutual = two one-sided; total force zero; "
+            "inner excludes the self term. Distinct by construction; non-trivial = both counts >= 1.",
+    "assumptions": ["g++ 12 long double (x87 80-bit) arithmetic as the reference", "scalar path only: Inastemp is not installed"],
+    "deadline": {"quick": 300, "thorough": 1800},
+}
+
+
+def hist_check(mode, rule, deadline_quick=600, deadline_thorough=2400):
+    return {
+        "builds": [{"name": "hist_driver", "sources": ["drivers/hist_driver.cpp"], "flags": ["-O1", "-g", "-DVF_" + mode]}],
+        "runs": [{"driver": "hist_driver", "args": ["--mode", mode], "slices": 32}],
+        "level": "model_checking",
+        "replayable": False,
+        "rule": rule,
+        "assumptions": COMMON_ASSUME + ["states are operation histories rebuilt by replay on fresh real objects; the canonical key (observable state) is used to prune, replay determinism is asserted by digest equality per state"],
+        "deadline": {"quick": deadline_quick, "thorough": deadline_thorough},
+    }
+
+
+CHECKS["C12"] = hist_check(
+    "C12",
+    "per (tree, upper working level 0..height): explicit-state BFS over the flag states (set of operators already applied: chain prefix "
+    "P2M<=M2M<=M2L<=L2L<=L2P x P2P) where each transition is one real execute(flags) call replayed on a fresh tree; every legal next "
+    "call from every state, every single flag alone from every state, and all 112 complete dependency-ordered partitions; invariants: "
+    "same tree digest for a state whatever the path, final state = one full run, buffer diff of a call within its operators' outputs, "
+    "no cell written and no operator called above the upper level, only requested operators run. transitions = execute() calls.")
+
+CHECKS["C13"] = hist_check(
+    "C13",
+    "BFS over histories of {move(particle p -> leaf l), rebuild, execute} up to the stated depth on small trees (all leaves x all "
+    "particles in the move alphabet), pruned by the canonical key (positions, accumulated results, pending flag); after every rebuild: "
+    "structure invariants, equality of the cell structure with a tree freshly built from the edited particles, every particle once with "
+    "its index, bit-identical data and preserved results, all expansions zero; after the e-th execute every pair has multiplicity e and "
+    "the exact accumulated potential. Variants: extra data values, data type different from the coordinate type, periodic ordering, "
+    "both grouping modes. transitions = operations replayed.")
+
+CHECKS["C17"] = hist_check(
+    "C17",
+    "per instantiation (NbData {1,2,3,4,6} x NbRhs {0,1,4} x coordinate/data types x dims 1..3) and tree: the history build, export, accumulate, "
+    "export, move+rebuild, export, accumulate, export; particles are inserted in reverse leaf order so that the internal order differs "
+    "from the insertion order; oracle: entry i of getAllParticlesData / getAllParticlesRhs = values of the particle inserted at "
+    "position i. states = points of the history at which the export is compared.")
